@@ -732,6 +732,9 @@ fn main() {
     if args.len() >= 2 && args[1] == "--sweep-tof" {
         std::process::exit(sweeps::sweep_tof(&args[2..]));
     }
+    if args.len() >= 2 && args[1] == "--sweep-tof32-hard" {
+        std::process::exit(sweeps::sweep_tof32_hard(&args[2..]));
+    }
     if args.len() >= 2 && args[1] == "--sweep-tof32-small" {
         std::process::exit(sweeps::sweep_tof32_small(&args[2..]));
     }
